@@ -54,7 +54,16 @@ structure Ty (α : Type) where
 def tyI : Ty Int := ⟨rasterI?, parseInt?, showRI, inferInstance⟩
 def tyD : Ty Rat := ⟨rasterD?, parseRat?, showRD, inferInstance⟩
 
-/-! ### value commands -/
+/-! ### value commands
+
+  Audit note on the MISMATCH verdicts of this engine: every quantity C19 defines (each cell of the result by the
+  cell function of the operator, the shape of the result, untouched operands, rejection of different shapes,
+  `==` as "same shape and same cells", copy / move / wrap expectations) is judged by `ElemMapOK`, `ElemZipOK`,
+  `SameRaster`, `sameShape`, `expectAfter` on the observed values BEFORE the model is consulted; these predicates
+  determine the observed value completely, so the MISMATCH branches below are reachable only (a) for the exception
+  CLASS of a rejected operation (the property says "rejected"), (b) where the property leaves the outcome open
+  (`expectAfter = none`: copy assignment to a wrapper beyond `relaxedCopyAssign`, writes through an object without
+  data), (c) outside the caller contract of the heap model, or (d) if the model itself were wrong. -/
 
 /-- `raster.rs`, `raster.sr`, `raster.pow`, `raster.sqrt`: result `r`, operand re-read as `a'`. -/
 def checkMap {α : Type} (ta : Ty α) (what : String) (spec : α → α) (model : Raster α)
@@ -123,6 +132,7 @@ def checkZip {α β γ : Type} (ta : Ty α) (tb : Ty β) (tc : Ty γ) (what : St
               else if !(isOkWith model r) then s!"MISMATCH {what} model={showExcept tc.shw model}"
               else "ok"
             | none =>
+              -- exception class of the rejection: not stated by C19
               if showExcept tc.shw model ≠ status then s!"MISMATCH {what} model={showExcept tc.shw model}" else "ok"
         | _ => "BADLINE"
       | none => "BADLINE"
@@ -148,6 +158,7 @@ def checkZipAssign {α β : Type} (ta : Ty α) (tb : Ty β) (what : String) (spe
           else if sameShape a b && threw then s!"PROPFAIL C19 equal-shapes-rejected {what} {status}"
           else if threw then
             if !(SameRaster a a') then s!"PROPFAIL C19 operands-unchanged {what} left-after-rejection={ta.shw a'}"
+            -- exception class of the rejection: not stated by C19
             else if showExcept ta.shw model ≠ status then s!"MISMATCH {what} model={showExcept ta.shw model}" else "ok"
           else if !(ElemZipOK spec a b a') then s!"PROPFAIL C19 elementwise {what}"
           else if !(isOkWith model a') then s!"MISMATCH {what} model={showExcept ta.shw model}"
@@ -504,6 +515,7 @@ def handleHeap (st : State) (cmd : String) (inp obs : List String) : State × St
         | some o =>
           let h := Heap.init exts
           let st' : State := { heap := h, n := n, pre := o, sync := true }
+          -- the harness's own initial state (no library operation yet)
           (st', if h.observe n = o then "ok" else s!"MISMATCH raster.h.init model={showObs (h.observe n)}")
         | none => ({ st with sync := false }, "BADLINE")
       | _, _ => ({ st with sync := false }, "BADLINE")
@@ -556,7 +568,7 @@ def handleHeap (st : State) (cmd : String) (inp obs : List String) : State × St
             match prop with
             | some d => ({ st' with sync := false }, "PROPFAIL C19 " ++ d)
             | none =>
-              -- 2. model against implementation
+              -- 2. model against implementation (cases (b) - (d) of the audit note at the top)
               let modelThrew := (h.throws op).isSome
               if modelThrew != threw then ({ st' with sync := false }, s!"MISMATCH {cmd} model-throws={modelThrew}")
               else if post ≠ modelObs then ({ st' with sync := false }, s!"MISMATCH {cmd} model={showObs modelObs}")
